@@ -112,6 +112,21 @@ def run(ctx, factor):
     ref = [norm(r) for r in fresh(ops)]
     # fresh interpreters differ in one thing the user does not control: the seed of Python's string hashing
     anyorder = [i for i, o in enumerate(ops) if "$and_any_order" in json.dumps(o["doc"])]
+    # one configuration object handed on from operation to operation (`dataclasses.replace` of the one just used, only the
+    # way of asking changed): the answers must be those of fresh configurations
+    for i, o in enumerate(ops):
+        if o.get("text") is None or o.get("macro_docs") or ref[i][0] != "ok" or o["mode"] != "all" or o["ret"] != "list":
+            continue
+        asks = [("bool", "all", o["addr_only"]), ("list", "all", o["addr_only"]), ("list", "all", not o["addr_only"]),
+                ("list", "first", o["addr_only"]), ("list", "all", o["addr_only"])]
+        got = [norm(r) for r in impl.run_ops_shared_config(ctx.scratch, o["doc"], o["text"], asks)]
+        rep.case({"operation": o, "asked_through_one_configuration_object": asks}, True, tags=["shared-config-object"])
+        for k in (1, 4):
+            if got[k] != ref[i]:
+                rep.violate("result-depends-on-earlier-use-of-the-configuration-object",
+                            {"operation": o, "asked_before_through_the_same_configuration": asks[:k]},
+                            {"fresh_process_result": ref[i]}, {"result": got[k]}, model_agrees_with_spec=None)
+                break
     for seed in (ctx.g.int(1, 50), ctx.g.int(51, 100)) + ((ctx.g.int(101, 1000),) if ctx.tier == "thorough" else ()):
         other = [norm(r) for r in fresh([ops[i] for i in anyorder], hashseed=seed)]
         for i, r in zip(anyorder, other):
